@@ -116,6 +116,33 @@ theorem finish_cb_when_start_raises (e : Err) (hst : startState cfg P = .error e
     (getAsync cfg P choices).outcome = .error e := by
   simp [getAsync, hst]
 
+/-! ## full statements (no `StartOK` hypothesis) -/
+section Full
+variable (h : Hyp cfg rank) (hG : GraphOK cfg.g cfg.results) (hst : startState cfg P = .ok st0)
+include h hG hst
+
+theorem fail_propagates_full (choices : List Nat) (s' : Sys α) (k : Key)
+    (hrun : mainLoop cfg P choices (sys0 st0) = .ok (s', .failed k)) :
+    P.fails k = true ∧ k ∈ s'.st.running ∧ k ∉ s'.st.finished ∧ k ∉ postKeys s'.log :=
+  fail_propagates h (C01.startOK_of_eq h hG hst) choices s' k hrun
+
+theorem no_dependent_of_failed_runs_full (choices : List Nat) (s' : Sys α) (k : Key)
+    (hrun : mainLoop cfg P choices (sys0 st0) = .ok (s', .failed k)) (j : Key) (hj : DependsOn s'.st k j) :
+    j ∉ preKeys s'.log ∧ j ∉ s'.st.ready ∧ j ∉ s'.st.running ∧ j ∉ s'.st.finished :=
+  no_dependent_of_failed_runs h (C01.startOK_of_eq h hG hst) choices s' k hrun j hj
+
+theorem finish_cb_exactly_once_full (choices : List Nat) :
+    ∃ l st b, (getAsync cfg P choices).log = l ++ [(Ev.finish b, st)] ∧ (∀ e ∈ l, isFinish e = false) ∧
+      (b = false ↔ (getAsync cfg P choices).outcome = .ok .done) :=
+  finish_cb_exactly_once h hst (C01.startOK_of_eq h hG hst) choices
+
+theorem no_hang_full (choices : List Nat) :
+    (∀ e, mainLoop cfg P choices (sys0 st0) = .error e → e = .badChoice) ∧
+    (st0.dependencies.length < choices.length → ∀ s' o, mainLoop cfg P choices (sys0 st0) = .ok (s', o) → o ≠ .starved) :=
+  no_hang h (C01.startOK_of_eq h hG hst) choices
+
+end Full
+
 /-! non-vacuity: the diamond of C01 where task 2 raises; task 1 completes first or second -/
 def exFail : Params Nat := { C01.exP with fails := fun k => k == 2 }
 def outcomeOf (r : Run Nat) : Option Outcome := match r.outcome with | .ok o => some o | .error _ => none
